@@ -19,6 +19,8 @@ impl ToTokens for ErrorDeclaration {
 #[derive(Default)]
 pub struct ErrorCheck<'a> {
     location: Option<&'a str>,
+    /// The syntax node whose span errors without a span of their own should receive.
+    node: Option<TokenStream>,
     __hidden: (),
 }
 
@@ -26,8 +28,15 @@ impl<'a> ErrorCheck<'a> {
     pub fn with_location(location: &'a str) -> Self {
         ErrorCheck {
             location: Some(location),
+            node: None,
             __hidden: (),
         }
+    }
+
+    /// Point errors that have no span of their own at `node`.
+    pub fn with_span_of(mut self, node: TokenStream) -> Self {
+        self.node = Some(node);
+        self
     }
 }
 
@@ -39,8 +48,13 @@ impl ToTokens for ErrorCheck<'_> {
             quote!()
         };
 
+        let span_call = self
+            .node
+            .as_ref()
+            .map(|node| quote!(.map_err(|e| e.with_span(#node))));
+
         tokens.append_all(quote! {
-            __errors.finish() #at_call?;
+            __errors.finish() #span_call #at_call?;
         })
     }
 }
